@@ -84,6 +84,8 @@ func main() {
 	timeout := flag.Int("timeout-ms", 10000, "per query timeout")
 	solver := flag.String("solver", "z3 -in", "solver command")
 	fallback := flag.String("fallback", "z3-new -in -T:120", "one-shot solver used when the main solver answers unknown (empty = none)")
+	crossEvery := flag.Int("cross-every", 0, "re-decide every query of every n-th path (per worker) with the cross solvers (0 = off)")
+	cross := flag.String("cross", "z3-new -in -t:20000;cvc5 --incremental --lang=smt2 --tlimit-per=20000", "cross solvers, ';' separated")
 	sched := flag.Bool("sched", false, "explore schedules")
 	policy := flag.String("policy", "first", "deterministic scheduling policy: first|last|rr")
 	preempt := flag.Int("preempt", 2, "preemption bound")
@@ -110,6 +112,12 @@ func main() {
 		MaxPaths: *maxPaths, MaxSeconds: *maxSec, Workers: *workers, SolverArgv: strings.Fields(*solver), FallbackArgv: strings.Fields(*fallback), TimeoutMs: *timeout,
 		SchedExplore: *sched, SchedPolicy: *policy, MaxPreempt: *preempt, Race: *race, ConcBound: *concBound, trackFns: true, Trace: *trace,
 		OpenClasses: map[string]bool{}, SampleEvery: *sampleEvery, BranchSites: *bsites}
+	cfg.CrossEvery = *crossEvery
+	for _, c := range strings.Split(*cross, ";") {
+		if f := strings.Fields(c); len(f) > 0 {
+			cfg.CrossArgv = append(cfg.CrossArgv, f)
+		}
+	}
 	for _, kv := range strings.Split(*bounds, ",") {
 		if kv == "" {
 			continue
